@@ -720,3 +720,45 @@ def _empty(interp, shape, dtype=float, **kw):
     n = shape[0] if isinstance(shape, tuple) else shape
     k, _ = _kind_val(dtype, 0)
     return ctx.arr("empty", k, n=to_z3(n), dtype=dtype)
+
+
+@model(np.sort)
+def _np_sort(interp, x, *a, **k):
+    """N-SORT: nondecreasing rearrangement (same length, same set of values)"""
+    eng = _eng()
+    if _all_concrete(x):
+        return np.sort(x, *a, **k)
+    arr = as_arr(interp, x)
+    if arr.kind not in ("int", "real"):
+        raise eng.Unsupported("np.sort of kind " + arr.kind)
+    ctx = interp.ctx
+    axiom("N-SORT")
+    r = ctx.arr("sorted", arr.kind, n=arr.n, dtype=arr.dtype)
+    i, j = z3.Int("i!so"), z3.Int("j!so")
+    ctx.assume(z3.ForAll([i, j], z3.Implies(z3.And(i >= 0, i < j, j < r.n), r.sel(i) <= r.sel(j))))
+    ctx.assume(z3.ForAll([i], z3.Implies(z3.And(i >= 0, i < r.n),
+                                         z3.Exists([j], z3.And(j >= 0, j < arr.n, arr.sel(j) == r.sel(i))))))
+    ctx.assume(z3.ForAll([j], z3.Implies(z3.And(j >= 0, j < arr.n),
+                                         z3.Exists([i], z3.And(i >= 0, i < r.n, r.sel(i) == arr.sel(j))))))
+    return r
+
+
+@model(np.allclose)
+def _np_allclose(interp, a, b, rtol=1e-05, atol=1e-08, **kw):
+    """N-ALLCLOSE: all |a - b| <= atol + rtol * |b|"""
+    eng = _eng()
+    if _all_concrete(a, b):
+        return np.allclose(a, b, rtol=rtol, atol=atol, **kw)
+    x, y = as_arr(interp, a), as_arr(interp, b)
+    if x.kind not in ("int", "real") or y.kind not in ("int", "real"):
+        raise eng.Unsupported("np.allclose of kinds " + x.kind + "/" + y.kind)
+    axiom("N-ALLCLOSE")
+    interp.ctx.check(x.n == y.n, "np.allclose operands have equal length", kind="noraise-lib")
+    k = z3.Int("k!ac")
+
+    def R(e):
+        return z3.ToReal(e) if z3.is_int(e) else e
+    ab = lambda t: z3.If(t < 0, -t, t)   # noqa
+    return wrap(z3.ForAll([k], z3.Implies(z3.And(k >= 0, k < x.n),
+                                          ab(R(x.sel(k)) - R(y.sel(k))) <=
+                                          to_z3(float(atol), "real") + to_z3(float(rtol), "real") * ab(R(y.sel(k))))))
